@@ -26,7 +26,7 @@ RULE = ("cases = ragged shape (exhaustive <=3 rows x <=3 cells + random up to 12
         "sort, unique with/without counts, diff of order 1..4) x dtype x value pattern (small / duplicates / dtype extremes / NaN); "
         "distinct = distinct (lengths, function, dtype, values); non-trivial = at least one row with >= 2 cells")
 EXHAUSTIVE = {"quick": False, "thorough": False}
-CORRESPONDENCE_ONLY = ["fixed-width wrap-around", "floats / NaN ordering", "result dtypes"]
+CORRESPONDENCE_ONLY = ["wrap-around of cumsum beyond the int64 accumulator", "floats / NaN ordering", "result dtypes"]
 ASSUMPTIONS = ["np.lexsort is stable"]
 
 FUNCS = ["cumsum", "add", "subtract", "bitwise_xor", "sort", "unique", "unique_counts", "diff"]
